@@ -1,6 +1,8 @@
 CONSTANTS
   MaxBlocks = 3
   MaxInv = 1
+  FileLimit = 3
+  PosBeforeRollover = FALSE
   MaxRestarts = 2
   TxU <- TxUDef
   Lists <- ListsA
@@ -12,5 +14,5 @@ CONSTANTS
 INIT InitI
 NEXT NextI
 VIEW ViewI
-INVARIANTS UtxoIsReplay NoIndexErrorClean OnlyKnownError SyncedCoversChain TxIndexAgrees SpenderAgreesClean EntriesFound CoinStatsAgree FiltersAgree RunningStateAgrees CommitBehindFlush
+INVARIANTS UtxoIsReplay NoIndexErrorClean OnlyKnownError SyncedCoversChain TxIndexAgrees SpenderAgreesClean EntriesFound CoinStatsAgree FiltersAgree FilterBytesAgree StaleFilterBytesAgree RunningStateAgrees CommitBehindFlush
 CHECK_DEADLOCK FALSE
